@@ -1322,22 +1322,23 @@ impl ThreadInternal for Thread {
         }
         // Otherwise the threads might be able to share values but only if they are on the same
         // of the generation tree (see src/gc.rs)
-        // Search from the thread which MAY be a child to the parent. If `parent` could not be
-        // found then the threads must be in different branches of the tree
-        let self_gen = gc.generation();
-        let other_gen = other.context.lock().unwrap().gc.generation();
-        let (parent, mut child) = if self_gen.is_parent_of(other_gen) {
-            (self, other)
-        } else {
-            (other, self)
-        };
-        while let Some(ref next) = child.parent {
-            if &**next as *const Thread == parent as *const Thread {
-                return true;
+        // Search from each thread towards the root. If neither is found among the ancestors of
+        // the other then the threads must be in different branches of the tree.
+        // (The generations would tell which of the two may be the ancestor but reading the
+        // generation of `other` needs the lock on its context, and the caller holds the lock on
+        // the context of `self`: a collection of `other`, which holds its own context and waits
+        // for the contexts of its descendants, deadlocks against that)
+        let _ = gc;
+        fn is_ancestor(ancestor: &Thread, mut child: &Thread) -> bool {
+            while let Some(ref next) = child.parent {
+                if &**next as *const Thread == ancestor as *const Thread {
+                    return true;
+                }
+                child = next;
             }
-            child = next;
+            false
         }
-        false
+        is_ancestor(self, other) || is_ancestor(other, self)
     }
 }
 
